@@ -124,6 +124,32 @@ package server
 //@   ensures [the-result-is-a-response-value] isResponseValue(result)
 //@   modifies *
 
+// the metrics library panics on a label value that is not valid UTF-8: utf8ok(s) = "s is valid UTF-8" (evaluated by
+// the verifier for string literals, uninterpreted otherwise)
+//@ ufunc utf8ok (String) Bool
+//@ trusted func (*github.com/prometheus/client_golang/prometheus.CounterVec).WithLabelValues
+//@   params v lvs
+//@   requires [metric-label-values-are-valid-utf8] forall i int :: {lvs[i]} 0 <= i && i < len(lvs) ==> utf8ok(lvs[i])
+//@   modifies nothing
+//@ trusted func (*github.com/prometheus/client_golang/prometheus.HistogramVec).WithLabelValues
+//@   params v lvs
+//@   requires [metric-label-values-are-valid-utf8] forall i int :: {lvs[i]} 0 <= i && i < len(lvs) ==> utf8ok(lvs[i])
+//@   modifies nothing
+
+// the dispatch table is built once, by the package initialiser, from string constants: every request type it knows
+// is valid UTF-8
+//@ func init#1
+//@   props C19
+//@   ensures [every-known-request-type-is-valid-utf8] forall k string :: {mhas(requestHandlers, k)} k in requestHandlers ==> utf8ok(k)
+// only known request types (or "unknown") become metric labels
+//@ func getRequestTypeLabel
+//@   props C19
+// what init#1 established (no other function of the package assigns the table)
+//@   assumes forall k string :: {mhas(requestHandlers, k)} k in requestHandlers ==> utf8ok(k)
+//@   ensures [the-label-is-valid-utf8] utf8ok(result)
+//@   modifies nothing
+//@   panics never
+
 //@ func (*CDCServer).getCDCHandler$1
 //@   props C19
 //@   requires deref(c) != nil && request != nil && writer != nil
